@@ -13,6 +13,18 @@ use std::cell::Cell;
 thread_local! {
   // const-initialised: `fill` is called while std initialises its own thread-local hash keys.
   static CTX: Cell<(bool, u64, u64)> = const { Cell::new((false, 0, 0)) };
+  static RUN_THREAD: Cell<bool> = const { Cell::new(false) };
+}
+
+/// Set when a run thread asked for hash keys before its context was installed: the keys std caches
+/// for that thread are then the kernel's, not the run's, and the run is not reproducible. This
+/// happened once (a workload generator built a `Heap` — hash maps — before `enter`): the
+/// determinism audit found it, this flag makes every check exit 2 if it ever happens again.
+pub static UNSEEDED_RUN_THREAD: std::sync::atomic::AtomicBool = std::sync::atomic::AtomicBool::new(false);
+
+/// First action of every run thread (simcore::runner).
+pub fn mark_run_thread() {
+  RUN_THREAD.with(|c| c.set(true));
 }
 
 /// Set the hash-seed context of the current thread. Must happen before the thread creates its
@@ -63,6 +75,9 @@ pub unsafe fn fill(buf: *mut u8, len: usize, flags: u32) -> isize {
     let _ = CTX.try_with(|c| c.set((true, ctx.1, ctx.2 + 1)));
     len as isize
   } else {
+    if RUN_THREAD.try_with(|c| c.get()).unwrap_or(false) {
+      UNSEEDED_RUN_THREAD.store(true, std::sync::atomic::Ordering::SeqCst);
+    }
     // SYS_getrandom on x86_64
     syscall(318, buf, len, flags) as isize
   }
